@@ -33,7 +33,13 @@ PROP = dict(
           "probability (0/10/35/70 %) a callback performs 1-2 operations itself: disable / restart / re-initialise the firing timer, "
           "schedule its own deferred destruction, advance the clock (a slow callback), or disable / enable / restart / re-initialise / "
           "destroy / create ANOTHER timer, preferring one that is due in the same pass; a quarter of the cases first churn the loop "
-          "with 5/70/140 short-lived timers (cabinet slot and pooled-record reuse, beyond the pool's retention of 64). Every callback "
+          "with 5/70/140 short-lived timers (cabinet slot and pooled-record reuse, beyond the pool's retention of 64). "
+          "30 % of the timer and pool cases are 'tiny quiet populations': exactly 2, 3 or 4 timers (the harness arms no exit timer), one of "
+          "them periodic with a short interval p in 1..10 and the others with intervals from {p, 1.5p+1, 2.5p+1, 3p+1, 10p, 7p+3} so that "
+          "their deadlines fall between the periodic timer's successive deadlines, all armed at one instant in shuffled order, 12-40 passes "
+          "half of which step by 1..2p, an operation before only one pass in seven (preferably re-arming an idle timer / a new doAfter, "
+          "i.e. an insertion rather than a removal, because a removal rebuilds the loop's heap), mutating callbacks in a quarter of them. "
+          "Every callback "
           "is judged when it arrives (armed in the model, clock >= t_enable+k*d, no armed timer with an earlier deadline, one-shot "
           "already reports disabled); after every pass no armed timer may have a deadline <= the clock the pass started with and "
           "isEnabled() of every timer equals the model; getWaitTime() read before a pass, and the timeout the loop actually passes to "
@@ -86,6 +92,13 @@ PROP = dict(
         "fires_oneshot", "fires_persistent", "catchup_fires_same_pass", "late_wake_two_or_more_periods",
         "late_wake_oneshot_overdue_by_an_interval", "ties_two_timers_same_deadline_same_pass", "armed_sharing_a_deadline",
         "pass_with_three_or_more_timers_due", "cb_clock_advanced_inside_callback",
+        # tiny populations (the heap's root and its two children): 2-4 pending timers with a periodic one in front, quiet stretches
+        # without enable/disable (a disable rebuilds the heap), re-armed deadline landing between the other pending ones
+        "cases_tiny_quiet_population", "passes_with_exactly_2_pending_timers_and_periodic_front",
+        "passes_with_exactly_3_pending_timers_and_periodic_front", "passes_with_exactly_4_pending_timers_and_periodic_front",
+        "quiet_passes_with_exactly_3_pending_timers_and_periodic_front", "rearm_with_exactly_3_pending_lands_between_the_other_two",
+        "rearm_with_exactly_3_pending_lands_behind_both_others", "rearm_with_exactly_4_pending_lands_between_others",
+        "rearm_with_exactly_2_pending_lands_behind_the_other",
         # removal by forcing the deadline to 0 + re-heapify; storage freed later; token reuse
         "removed_from_middle_of_deadline_order", "removed_nearest_deadline", "removed_while_due_in_this_pass",
         "cb_disable_other_due_in_same_pass", "cb_destroy_other_due_in_same_pass", "cb_restart_other_due_in_same_pass",
